@@ -280,6 +280,20 @@ package lalr
 //@     invariant 0 <= @i && @i <= len(state.core)
 //@     invariant forall j in 0..len(c.right) :: bit(out, j) <==> exists k in 0..@i :: state.core[k] == j || (c.right[state.core[k]] >= c.grammar.Terminals && bit(c.rules[c.right[state.core[k]] - c.grammar.Terminals], j))
 
+// ---- conflict bookkeeping (C03, C04): one table cell, the rules competing for it and how precedence decides ----
+
+// add: a cell keeps a resolution only while every rule added to it agrees; two different resolutions
+// (or an earlier conflict) make it a conflict. The rule is recorded in order.
+//@ func ambiguity.add
+//@   modifies a.res, a.rules, a.rules[0:cap(a.rules)]
+//@   ensures a.res == ((old(a.res) == none || old(a.res) == res) ? res : conflict)
+//@   ensures len(a.rules) == old(len(a.rules)) + 1 && a.rules[len(a.rules)-1] == rule && forall k in 0..old(len(a.rules)) :: a.rules[k] == old(a.rules[k])
+
+// key: resolution (low four bits) and the can-shift flag (bit 4), followed by the rules
+//@ func ambiguity.key
+//@   ensures fresh(result) && len(result) == len(a.rules) + 1 && result[0] == a.res + (a.canShift ? 16 : 0)
+//@   ensures forall k in 0..len(a.rules) :: result[k+1] == a.rules[k]
+
 // ---- nullable nonterminals (C01, C03): the least set closed under "every non-marker symbol of some rule is empty" ----
 
 // ruleEmpty(c, r): every symbol on the right-hand side of rule r is a state marker or marked empty
